@@ -14,12 +14,12 @@ ANCHORS = ['phylib.utils.event:EventEmitter.connect', 'phylib.utils.event:EventE
            'phylib.utils.event:EventEmitter.silent', 'phylib.utils.event:EventEmitter.set_silent',
            'phylib.utils.event:ProgressReporter._set_value', 'phylib.utils.event:ProgressReporter.reset',
            'phylib.utils.event:ProgressReporter.increment', 'phylib.utils.event:ProgressReporter.set_complete']
-RULE = ('Dispatch: EVERY operation sequence of depth <= D over a 21-operation alphabet {8 connects (plain '
+RULE = ('Dispatch: EVERY operation sequence of depth <= D over a 23-operation alphabet {8 connects (plain '
         'function by name / bound method with explicit event; sender filter none or S1; last or not), '
         'unconnect(callback), unconnect(sender), unconnect(owner of a bound method), reset, '
         'set_silent(T/F), enter/exit silent() (well nested), exit silent() by an exception, 4 emits} on a '
         'fresh EventEmitter, followed by probe emits; plus seeded random histories of length <= 14 over '
-        'the full alphabet (3 callbacks, 2 events, senders S1/S2 with value equality (S2 is falsy) - every other emit comes from an equal but distinct sender object -, single, args/kwargs, a callback that raises - the exception must propagate and leave the emitter usable -, a callback that emits another event from inside the dispatch), a third of them '
+        'the full alphabet (3 callbacks, 2 events, senders S1/S2 with value equality (S2 is falsy) - every other emit comes from an equal but distinct sender object -, single, args/kwargs, a callback that raises - the exception must propagate and leave the emitter usable -, a callback that emits another event from inside the dispatch, callbacks that connect / unconnect another callback of the event being dispatched - effective from the next emit on -; real event names rotate over e1/e2, position_set/action_on_done, close/on_close), a third of them '
         'through the module-level global emitter. Every callback invocation is recorded by the callback '
         'itself (id, sender, args, kwargs) and each emit is compared with a list reference machine. '
         'Progress: EVERY history of depth <= P over {increment, value=0..3, max=0..3, set_complete, '
@@ -28,11 +28,12 @@ RULE = ('Dispatch: EVERY operation sequence of depth <= D over a 21-operation al
         'distinct histories with a last-callback registered before a plain one, an unconnect between two '
         'emits, nested silencing; progress histories with >= 2 completions or a reset after a completion.')
 EXHAUSTIVE = {'quick': True, 'thorough': True}
-EXHAUSTIVE_SCOPE = {'quick': 'dispatch depth 4 (21 ops), progress depth 4 (15 ops)',
+EXHAUSTIVE_SCOPE = {'quick': 'dispatch depth 4 (23 ops), progress depth 4 (15 ops)',
                     'thorough': 'dispatch depth 5, progress depth 6'}
 FLOORS = {'quick': {'evaluations': 200000, 'distinct_nontrivial': 20000},
           'thorough': {'evaluations': 3000000, 'distinct_nontrivial': 300000}}
-ASSUMPTIONS = ['set_silent is never called inside a silent() block (semantics not fixed by the statement)',
+ASSUMPTIONS = ['the callbacks due from an emit are those registered when the emit is issued: a connect / unconnect made by a callback during the dispatch counts from the next emit on (an emit that changes the registry has no other well-defined "currently registered" set)',
+               'set_silent is never called inside a silent() block (semantics not fixed by the statement)',
                "emit(..., single=True) with no matching callback may return [] or None",
                'the return value of an emit while silenced is not judged']
 NSHARDS = 16
@@ -57,9 +58,16 @@ class Sender(object):
         return 0 if self.name == 'S2' else 1      # S2 is a falsy object (an empty container is a legitimate sender)
 
 
+# real event names behind the abstract events e1 / e2 (names that contain 'on_' beyond the prefix, an event that
+# is itself called 'on_close' next to 'close')
+NAMES = [('e1', 'e2'), ('position_set', 'action_on_done'), ('close', 'on_close')]
+
+
 class World(object):
     """Real emitter + recording callbacks + reference registry."""
-    def __init__(self, use_global=False):
+    def __init__(self, use_global=False, names=0):
+        self.real = dict(zip(('e1', 'e2'), NAMES[names % len(NAMES)]))
+        real = self.real
         from phylib.utils import event as ev
         self.ev = ev
         if use_global:
@@ -80,20 +88,21 @@ class World(object):
             def __init__(self, tok):
                 self.tok = tok
 
-            def on_e1(self, sender, *a, **k):
-                me.log.append((self.tok, sender, a, k, 'e1'))
+        def mk_method(event):
+            def meth(self, sender, *a, **k):
+                me.log.append((self.tok, sender, a, k, event))
                 return ('ret', self.tok)
-
-            def on_e2(self, sender, *a, **k):
-                me.log.append((self.tok, sender, a, k, 'e2'))
-                return ('ret', self.tok)
+            meth.__name__ = 'on_' + real[event]
+            return meth
+        for _e in ('e1', 'e2'):
+            setattr(Owner, 'on_' + real[_e], mk_method(_e))
         self.owners = {'B': Owner('B'), 'C': Owner('C')}
 
         def mk(tok, event):
             def f(sender, *a, **k):
                 me.log.append((tok, sender, a, k, event))
                 return ('ret', tok)
-            f.__name__ = 'on_' + event
+            f.__name__ = 'on_' + real[event]
             return f
         self.funcs = {('A', 'e1'): mk('A', 'e1'), ('A', 'e2'): mk('A', 'e2')}
 
@@ -101,7 +110,7 @@ class World(object):
             def raiser(sender, *a, **k):
                 me.log.append(('R', sender, a, k, event))
                 raise KeyError('callback failure')
-            raiser.__name__ = 'on_' + event
+            raiser.__name__ = 'on_' + real[event]
             return raiser
         self.funcs[('R', 'e1')] = mk_raiser('e1')
         self.funcs[('R', 'e2')] = mk_raiser('e2')
@@ -110,17 +119,34 @@ class World(object):
             # reentrancy: a callback of e1 that itself emits e2 on the same emitter
             me.log.append(('N', sender, a, k, 'e1'))
             try:
-                me.f['emit']('e2', sender)
+                me.f['emit'](real['e2'], sender)
             except KeyError:
                 pass
             return ('ret', 'N')
-        nested.__name__ = 'on_e1'
+        nested.__name__ = 'on_' + real['e1']
         self.funcs[('N', 'e1')] = nested
 
+        def connector(sender, *a, **k):
+            # reentrancy: a callback of e1 that registers callback A for e1 while e1 is being dispatched; the
+            # registration is due from the NEXT emit on
+            me.log.append(('K', sender, a, k, 'e1'))
+            me.f['connect'](me.funcs[('A', 'e1')], event=real['e1'])
+            return ('ret', 'K')
+        connector.__name__ = 'on_' + real['e1']
+        self.funcs[('K', 'e1')] = connector
+
+        def unconnector(sender, *a, **k):
+            # ... and one that withdraws callback A for e1 during the dispatch (effective from the next emit on)
+            me.log.append(('U', sender, a, k, 'e1'))
+            me.f['unconnect'](me.funcs[('A', 'e1')])
+            return ('ret', 'U')
+        unconnector.__name__ = 'on_' + real['e1']
+        self.funcs[('U', 'e1')] = unconnector
+
     def cb(self, tok, event):
-        if tok in ('A', 'R', 'N'):
+        if tok in ('A', 'R', 'N', 'K', 'U'):
             return self.funcs[(tok, event)], None
-        return getattr(self.owners[tok], 'on_' + event), tok
+        return getattr(self.owners[tok], 'on_' + self.real[event]), tok
 
     def apply(self, op):
         """Apply op to the real emitter and the reference. Returns None or a violation message."""
@@ -130,7 +156,7 @@ class World(object):
             f, owner = self.cb(tok, event)
             kw = {}
             if style == 'explicit':
-                kw['event'] = event
+                kw['event'] = self.real[event]
             if sf:
                 kw['sender'] = self.S[sf]
             if last:
@@ -197,7 +223,13 @@ class World(object):
             # every other emit comes from an equal but distinct sender object
             self.n_emits = getattr(self, 'n_emits', 0) + 1
             sender_obj = self.S[s] if self.n_emits % 2 else Sender(s)
-            r = call(self.f['emit'], event, sender_obj, *args, **kw)
+            r = call(self.f['emit'], self.real[event], sender_obj, *args, **kw)
+            # registry changes made by callbacks during the dispatch count from the next emit on
+            for c in self.log:
+                if c[0] == 'K':
+                    self.ref.connect('e1', None, ('A', 'e1'), None, False)
+                elif c[0] == 'U':
+                    self.ref.unconnect([('A', 'e1')])
             if not r.ok and not (raises and isinstance(r.exc, KeyError)):
                 return 'emit raised %r' % r.exc
             if raises and r.ok:
@@ -246,6 +278,7 @@ CONNECTS_SMALL = [('connect', tok, 'e1', style, sf, last)
 SMALL = CONNECTS_SMALL + [
     ('unconnect', [('cb', ('A', 'e1'))]), ('unconnect', [('sender', 'S1')]), ('unconnect', [('owner', 'B')]),
     ('reset',), ('set_silent', True), ('set_silent', False), ('enter',), ('exit',), ('exit_exc',),
+    ('connect', 'K', 'e1', 'explicit', None, False), ('connect', 'U', 'e1', 'explicit', None, True),
     ('emit', 'e1', 'S1', False, (), {}), ('emit', 'e1', 'S2', False, (1,), {'k': 2}),
     ('emit', 'e1', 'S1', True, (), {}), ('emit', 'e2', 'S1', False, (), {})]
 PROBES = [('emit', 'e1', 'S1', False, (7,), {'x': 1}), ('emit', 'e1', 'S2', False, (), {}),
@@ -267,10 +300,10 @@ def run_shard(desc, ctx):
         for seq in itertools.product(range(len(SMALL)), repeat=depth):
             idx += 1
             if idx % ns == sh:
-                run_case({'kind': 'dispatch', 'ops': [SMALL[i] for i in seq], 'global': False}, ctx)
+                run_case({'kind': 'dispatch', 'ops': [SMALL[i] for i in seq], 'global': False, 'names': idx // ns}, ctx)
     rng = np.random.default_rng([desc['seed'], sh, 19])
     for _ in range(desc['nrand']):
-        run_case({'kind': 'dispatch', 'ops': random_ops(rng), 'global': bool(_ % 3 == 0)}, ctx)
+        run_case({'kind': 'dispatch', 'ops': random_ops(rng), 'global': bool(_ % 3 == 0), 'names': _ // 3}, ctx)
     for depth in range(1, desc['P'] + 1):
         for seq in itertools.product(range(len(PROG_OPS)), repeat=depth):
             idx += 1
@@ -284,9 +317,9 @@ def random_ops(rng):
     for _ in range(int(rng.integers(2, 15))):
         k = int(rng.integers(0, 14))
         if k <= 4:
-            tok = 'ABCRN'[int(rng.integers(0, 5))] if rng.random() < 0.5 else 'ABC'[int(rng.integers(0, 3))]
-            style = ['name', 'explicit', 'decorator'][int(rng.integers(0, 3))] if tok not in 'RN' else 'explicit'
-            ops.append(('connect', tok, ['e1', 'e2'][int(rng.integers(0, 2))] if tok != 'N' else 'e1', style,
+            tok = 'ABCRNKU'[int(rng.integers(0, 7))] if rng.random() < 0.5 else 'ABC'[int(rng.integers(0, 3))]
+            style = ['name', 'explicit', 'decorator'][int(rng.integers(0, 3))] if tok not in 'RNKU' else 'explicit'
+            ops.append(('connect', tok, ['e1', 'e2'][int(rng.integers(0, 2))] if tok not in 'NKU' else 'e1', style,
                         [None, None, 'S1', 'S2'][int(rng.integers(0, 4))], bool(rng.integers(0, 3) == 0)))
         elif k == 5:
             items = []
@@ -350,11 +383,11 @@ def run_case(case, ctx):
         elif k in ('exit', 'exit_exc') and dpt:
             dpt -= 1
     nontriv = last_before_plain or unc_between or nested
-    ctx.count(1, key=hkey(repr(ops), case['global']), nontrivial=nontriv,
+    ctx.count(1, key=hkey(repr(ops), case['global'], case.get('names', 0) % len(NAMES)), nontrivial=nontriv,
               cell=('dispatch', 'len%d' % min(len(ops), 6), 'global' if case['global'] else 'fresh'))
     if nontriv:
         ctx.sample({'ops': ops}, every=3001)
-    w = World(use_global=case['global'])
+    w = World(use_global=case['global'], names=case.get('names', 0))
     feats = {'kind': 'dispatch'}
     silent_nested = False
     try:
@@ -375,7 +408,7 @@ def run_case(case, ctx):
                 msg = w.apply(op)
             if msg:
                 silent_ctx = any(k in ('enter', 'exit', 'exit_exc') for k in kinds)
-                ctx.violation('dispatch_mismatch', {'kind': 'dispatch', 'ops': ops, 'global': case['global']},
+                ctx.violation('dispatch_mismatch', {'kind': 'dispatch', 'ops': ops, 'global': case['global'], 'names': case.get('names', 0)},
                               'after %d operations: %s' % (i, msg),
                               dict(feats, uses_silent_context=silent_ctx))
                 break
